@@ -144,7 +144,7 @@ def _same(a, b):
                                               | (np.isnan(a) & np.isnan(b))))
 
 
-def check_derivative(op, pts, site, first, stats, judge=True):
+def check_derivative(op, pts, site, first, stats, judge=True, tiny=False):
     dom, ran = op.domain, op.range
     n = S.flat_size(dom)
     if n > MAXDIM or S.flat_size(ran) > MAXDIM * 2:
@@ -273,6 +273,47 @@ def check_derivative(op, pts, site, first, stats, judge=True):
                              % (np.asarray(p).tolist(), k, np.round(de, 10).tolist(),
                                 np.round(rich, 10).tolist(), np.round(ds[0], 8).tolist(),
                                 np.round(ds[2], 8).tolist()))
+    # magnitude regime: the first two base points scaled by 2^-30, steps scaled alike.  Exact tests
+    # inside a derivative ("norm == 0") must not be tolerance-based ones.  Judged only where the
+    # three difference quotients agree with each other to 1e-8 (at these steps the truncation
+    # error of a smooth map is far below round-off, so disagreement means that op itself is not
+    # accurate enough at this scale, or a kink was crossed - undecided).
+    if judge and tiny and not single and not S.is_field(dom):
+        sc = 2.0 ** -30
+        for p0 in pts[:2]:
+            p = sc * np.asarray(p0)
+            try:
+                x = S.from_flat(dom, p)
+                D = op.derivative(x)
+                if not isinstance(D, odl.Operator) or D.domain != dom or D.range != ran:
+                    continue
+            except Exception:
+                stats['skipped'] += 1
+                continue
+            for k, e in enumerate(dirs):
+                try:
+                    de = _rc(ran, D(S.from_flat(dom, e)))
+                    ds = [(_rc(ran, op(S.from_flat(dom, p + sc * h * e)))
+                           - _rc(ran, op(S.from_flat(dom, p - sc * h * e)))) / (2 * sc * h)
+                          for h in H]
+                except Exception:
+                    stats['skipped'] += 1
+                    break
+                stats['evals'] += 7
+                if not all(np.all(np.isfinite(d)) for d in ds) or not np.all(np.isfinite(de)):
+                    stats['skipped'] += 1
+                    continue
+                mag = 1.0 + np.abs(ds[0]).max()
+                if max(np.abs(ds[1] - ds[0]).max(), np.abs(ds[2] - ds[0]).max()) > 1e-8 * mag:
+                    stats['skipped'] += 1
+                    continue
+                if np.abs(de - ds[0]).max() > 1e-6 * mag:
+                    first.setdefault((site, 'derivative_differs_from_central_difference'),
+                                     'x=%s (tiny magnitude) direction %d: derivative(x)(e)=%s, central '
+                                     'differences with steps 2^-30 * (2^-6, 2^-9, 2^-12) all give %s'
+                                     % (p.tolist(), k, np.round(de, 10).tolist(),
+                                        np.round(ds[0], 10).tolist()))
+                    break
     if held is not None:
         Dp, xpriv, v0 = held
         try:
@@ -310,7 +351,7 @@ def run(cfg):
         site = '%s[%s]' % (spec.name, _optstr(o))
         dk = o.get('dk', spec.dk)
         pts = OR.points(op.domain, dk, cfg['npts'])
-        check_derivative(op, pts, site, first, stats, judge=not cfg.get('exempt'))
+        check_derivative(op, pts, site, first, stats, judge=not cfg.get('exempt'), tiny=True)
         sigs.append('%s:%s%s' % (type(op).__name__, 'lin' if op.is_linear else 'nonlin',
                                  ':history-only' if cfg.get('exempt') else ''))
     elif k == 'expr':
